@@ -13,9 +13,10 @@ type Value interface{}
 type BoolV struct{ T *Term }
 type IntV struct{ T *Term }
 type StrV struct {
-	Len *Term   // bv64
-	B   []*Term // bv8, capacity (nil while lazy: see R)
-	R   *Rope   // optional token structure: string == join(tokens, "/"), every piece is '/'-free
+	Len   *Term   // bv64
+	B     []*Term // bv8, capacity (nil while lazy: see R)
+	R     *Rope   // optional token structure: string == join(tokens, "/"), every piece is '/'-free
+	EscOf *StrV   // set on the result of jsonpointer.Escape: the string it is the escaped form of
 }
 
 // Rope: the string is the "/"-join of Toks; a token is the concatenation of its pieces (flat, '/'-free strings).
